@@ -220,13 +220,42 @@ Qed.
 Lemma trim_left_hd x : hd_nospace x -> trim_left x = x.
 Proof. destruct x as [|a x]; [contradiction|]. simpl. now intros ->. Qed.
 
-Lemma trim_space_join ws :
-  ws <> [] -> Forall solid ws -> trim_space (space :: join space ws) = join space ws.
+Lemma fields_aux_word w cur rest :
+  all_nospace w = true -> fields_aux cur (w ++ rest) = fields_aux (rev w ++ cur) rest.
 Proof.
-  intros Hne Hall. unfold trim_space, trim_right.
-  change (trim_left (space :: join space ws)) with (trim_left (join space ws)).
-  rewrite (trim_left_hd _ (join_hd ws Hne Hall)).
-  rewrite (trim_left_hd _ (rev_join_hd ws Hne Hall)). apply rev_involutive.
+  revert cur; induction w as [|a w IH]; intros cur H; [reflexivity|].
+  cbn [all_nospace] in H. rewrite andb_true_iff, negb_true_iff in H. destruct H as [Ha Hw].
+  cbn [app fields_aux]. rewrite Ha. rewrite IH by assumption.
+  cbn [rev]. now rewrite <- app_assoc.
+Qed.
+
+Lemma fields_aux_solid_end w : solid w -> fields_aux [] w = [w].
+Proof.
+  intros [Hne Hns]. rewrite <- (app_nil_r w) at 1. rewrite fields_aux_word by assumption.
+  rewrite app_nil_r. cbn [fields_aux].
+  destruct (rev w) eqn:E.
+  - exfalso. apply Hne. rewrite <- (rev_involutive w), E. reflexivity.
+  - rewrite <- E. now rewrite rev_involutive.
+Qed.
+
+Lemma fields_join ws : Forall solid ws -> fields_aux [] (join space ws) = ws.
+Proof.
+  induction ws as [|w ws IH]; intros Hall; [reflexivity|].
+  inversion Hall as [|? ? Hw Hrest]; subst.
+  destruct ws as [|w' ws'].
+  - cbn [join]. now apply fields_aux_solid_end.
+  - change (join space (w :: w' :: ws')) with (w ++ space :: join space (w' :: ws')).
+    destruct Hw as [Hne Hns]. rewrite fields_aux_word by assumption. rewrite app_nil_r.
+    cbn [fields_aux]. replace (is_space space) with true by reflexivity.
+    destruct (rev w) eqn:E.
+    + exfalso. apply Hne. rewrite <- (rev_involutive w), E. reflexivity.
+    + rewrite <- E, rev_involutive. f_equal. now apply IH.
+Qed.
+
+Lemma fields_space_join ws : Forall solid ws -> fields (space :: join space ws) = ws.
+Proof.
+  intros H. unfold fields. cbn [fields_aux]. replace (is_space space) with true by reflexivity.
+  now apply fields_join.
 Qed.
 
 Definition plus_line_text (l : plusline) : str := plus_build_sp ++ join space (map print_opt l).
@@ -245,10 +274,7 @@ Proof.
   2:{ symmetry. apply Nat.ltb_ge. rewrite app_length. unfold plus_build_sp. simpl. lia. }
   change (skipn 6 (plus_build_sp ++ join space (map print_opt l)))
     with (space :: join space (map print_opt l)).
-  rewrite trim_space_join by assumption.
-  rewrite split_join; [now apply y_or_agree|assumption|].
-  apply Forall_forall. intros w Hw. apply nosep_space_solid.
-  rewrite Forall_forall in Hsolid. now apply Hsolid.
+  rewrite fields_space_join by assumption. now apply y_or_agree.
 Qed.
 
 (* ------------------------------------------------------------------ *)
@@ -489,10 +515,32 @@ Lemma vocab_refuted :
   /\ g_selected linux_amd64 h_unix = true.
 Proof. split; vm_compute; reflexivity. Qed.
 
-(** two spaces between options: the host process panics (index out of range on the empty option) *)
-Lemma space_panic_refuted : y_line_ok linux_amd64 (s "+build linux  amd64 windows") <> None
-                            /\ y_line_ok linux_amd64 (s "+build windows  linux") = None.
-Proof. split; vm_compute; [discriminate|reflexivity]. Qed.
+(** irregular spacing and empty tags no longer reach a host panic (repaired, "fix:" commit in /repo):
+    no line makes the model return [None]. *)
+Lemma y_and_total c ts : y_and c ts <> None.
+Proof.
+  induction ts as [|t ts IH]; cbn [y_and]; [discriminate|].
+  destruct (y_tag_ok c t) as [[|]|] eqn:E; [exact IH|discriminate|].
+  destruct t; cbn [y_tag_ok] in E; discriminate E.
+Qed.
+
+Lemma y_or_total c os : y_or c os <> None.
+Proof.
+  induction os as [|o os IH]; cbn [y_or]; [discriminate|].
+  unfold y_option_ok. destruct (y_and c (split comma o)) as [[|]|] eqn:E; [discriminate|exact IH|].
+  exfalso. exact (y_and_total c _ E).
+Qed.
+
+Lemma line_never_panics c line : y_line_ok c line <> None.
+Proof.
+  unfold y_line_ok. destruct ((length line <? 7) || negb (has_prefix plus_build_sp line)); [discriminate|].
+  apply y_or_total.
+Qed.
+
+Lemma irregular_spacing_example :
+  y_line_ok linux_amd64 (s "+build windows  linux") = Some true
+  /\ y_line_ok linux_amd64 (s "+build windows,,amd64") = Some false.
+Proof. split; vm_compute; reflexivity. Qed.
 
 Lemma name_refuted :
   (* the last word alone is not examined when there are two words *)
